@@ -43,6 +43,7 @@ pub struct Field {
     pub len: usize,
     /// value for LEB128 fields
     pub val: u64,
+    pub leb: bool,
 }
 
 pub struct Rd<'a> {
@@ -74,7 +75,7 @@ impl<'a> Rd<'a> {
                 break;
             }
         }
-        self.fields.push(Field { kind, off: start, len: self.p - start, val: v });
+        self.fields.push(Field { kind, off: start, len: self.p - start, val: v, leb: true });
         Ok(v)
     }
     pub fn bytes(&mut self, kind: &'static str, n: usize) -> R<Vec<u8>> {
@@ -82,7 +83,7 @@ impl<'a> Rd<'a> {
             return Err(format!("eof reading {n} bytes of {kind} at {}", self.p));
         }
         let v = self.b[self.p..self.p + n].to_vec();
-        self.fields.push(Field { kind, off: self.p, len: n, val: 0 });
+        self.fields.push(Field { kind, off: self.p, len: n, val: 0, leb: false });
         self.p += n;
         Ok(v)
     }
@@ -240,6 +241,21 @@ impl WStructure {
         rd.end()?;
         Ok(s)
     }
+    pub fn encode(&self, out: &mut Vec<u8>) {
+        out.push(0);
+        leb_enc(self.dims.len() as u64, out);
+        for (n, d) in &self.dims {
+            put_vec(n.as_bytes(), out);
+            out.push(u8::from(d.ordered));
+            leb_enc(d.attrs.len() as u64, out);
+            for a in &d.attrs {
+                put_vec(a.name.as_bytes(), out);
+                leb_enc(a.id, out);
+                out.push(u8::from(a.hybrid));
+                out.push(u8::from(a.enabled));
+            }
+        }
+    }
     pub fn find(&self, dim: &str, name: &str) -> Option<&WAttr> {
         self.dims.get(dim)?.attrs.iter().find(|a| a.name == name)
     }
@@ -372,6 +388,39 @@ impl WMsk {
     }
 }
 
+impl WMsk {
+    pub fn encode(&self) -> Vec<u8> {
+        let mut out = vec![];
+        out.extend_from_slice(&self.s);
+        leb_enc(self.tracers.len() as u64, &mut out);
+        for (t, p) in &self.tracers {
+            out.extend_from_slice(t);
+            out.extend_from_slice(p);
+        }
+        leb_enc(self.users.len() as u64, &mut out);
+        for id in &self.users {
+            leb_enc(id.len() as u64, &mut out);
+            for m in id {
+                out.extend_from_slice(m);
+            }
+        }
+        leb_enc(self.rights.len() as u64, &mut out);
+        for (r, chain) in &self.rights {
+            put_vec(r, &mut out);
+            leb_enc(chain.len() as u64, &mut out);
+            for (a, k) in chain {
+                out.push(u8::from(*a));
+                k.write(&mut out);
+            }
+        }
+        if let Some(k) = &self.signing_key {
+            out.extend_from_slice(k);
+        }
+        self.structure.encode(&mut out);
+        out
+    }
+}
+
 // ---------------------------------------------------------------------------
 // Master public key
 
@@ -409,6 +458,27 @@ impl WMpk {
         let structure = read_structure(&mut rd)?;
         rd.end()?;
         Ok(Self { tpk, keys, structure, fields: rd.fields })
+    }
+}
+
+impl WMpk {
+    pub fn encode(&self) -> Vec<u8> {
+        let mut out = vec![];
+        leb_enc(self.tpk.len() as u64, &mut out);
+        for p in &self.tpk {
+            out.extend_from_slice(p);
+        }
+        leb_enc(self.keys.len() as u64, &mut out);
+        for (r, k) in &self.keys {
+            put_vec(r, &mut out);
+            out.push(u8::from(k.ek.is_some()));
+            out.extend_from_slice(&k.h);
+            if let Some(ek) = &k.ek {
+                out.extend_from_slice(ek);
+            }
+        }
+        self.structure.encode(&mut out);
+        out
     }
 }
 
